@@ -16,7 +16,7 @@ RULE = ('0-4 ledger processes; classes: plain (always-on, constant or invocation
         'scripted true-false sequences / built-in _condition path), quiet (no process ever meets its '
         'condition), empty (steps only, no processes), grid (global_time_precision 1-3 with timesteps and '
         'intervals on the 10^-p grid); 1-7 run_for/update calls incl. chunks shorter than every timestep, '
-        'forced and unforced, nonzero initial time; non-trivial = >=2 calls and (>=2 processes or a '
+        'forced and unforced, nonzero initial time, emit_step 1 or another grid value; non-trivial = >=2 calls and (>=2 processes or a '
         'hostile/quiet/grid class) and >=5 clock assignments observed; distinct = distinct case spec')
 PLAN = {'quick': {'n': 30000, 'min_cases': 2000}, 'thorough': {'n': 400000, 'min_cases': 40000}}
 REQUIRED_ORACLES = ['monotone', 'bounded_by_end', 'landing', 'terminates', 'rows_increasing', 'on_grid',
@@ -64,8 +64,11 @@ def gen(r, tier, i):
         t0 = r.choice([0, 0, 0.0, 1.5, 10.0, 100.25])
     else:
         t0 = r.choice([0, 0, float(r.choice(sched.DEC[gprec]['iv']))])
+    emit_step = 1
+    if r.random() < 0.3:
+        emit_step = r.choice([0.5, 2, 0.25, 1.5]) if grid == 'dyadic' else float(r.choice(sched.DEC[gprec]['iv']))
     return {'class': cls, 'grid': grid, 'precision': prec, 'gprec': gprec, 't0': t0, 'procs': procs,
-            'calls': calls, 'nsteps': 1 if (cls == 'empty' or r.random() < 0.2) else 0}
+            'calls': calls, 'nsteps': 1 if (cls == 'empty' or r.random() < 0.2) else 0, 'emit_step': emit_step}
 
 
 def run(spec):
@@ -157,7 +160,7 @@ def run(spec):
                         mechanism=None)
     nt = len(spec['calls']) >= 2 and (len(spec['procs']) >= 2 or spec['class'] != 'plain') and nsets >= 5
     return {'viol': list(V), 'evals': V.evals, 'stats': {'clock_assignments': nsets, 'rows': len(rows), 'calls_returned': calls_done},
-            'nontrivial': nt, 'classes': ['class_' + spec['class'], 'grid_' + spec['grid'],
+            'nontrivial': nt, 'classes': ['class_' + spec['class'], 'grid_' + spec['grid'], 'emit_step_1' if spec.get('emit_step', 1) == 1 else 'emit_step_other',
                                           'precision_%s' % prec, 't0_nonzero' if spec['t0'] else 't0_zero'],
             'summary': {'clock_assignments': nsets, 'rows': len(rows), 'calls': len(spec['calls'])}}
 
